@@ -71,6 +71,8 @@ type frame struct {
 	dynCalls int
 	atCallN  int
 	localParams map[ssa.Value]bool
+	localRefs map[string][]localRef
+	curBlock *ssa.BasicBlock
 }
 
 func (fr *frame) name(v ssa.Value) string {
@@ -437,6 +439,7 @@ func (fr *frame) encodeBody(st *State, g string) {
 }
 
 func (fr *frame) encodeBlock(b *ssa.BasicBlock, st *State, g string) {
+	fr.curBlock = b
 	for _, in := range b.Instrs {
 		switch x := in.(type) {
 		case *ssa.Phi:
@@ -903,6 +906,19 @@ func (fr *frame) globalConstLoad(gl *ssa.Global) (string, bool) {
 		fr.vc.declare(name, fr.vc.sortOf(et))
 		for _, f := range fr.typeFacts(fr.entry, et, name, true) {
 			fr.vc.assume(f)
+		}
+		// an error variable initialised with errors.New / fmt.Errorf is a distinct non-nil value
+		if v, ok := P.globalConst[gl]; ok && v != nil && isIface(et) {
+			if call, ok := v.(*ssa.Call); ok {
+				if callee := call.Call.StaticCallee(); callee != nil && (callee.String() == "errors.New" || callee.String() == "fmt.Errorf") {
+					fr.vc.assume("(not (= (tag " + name + ") 0))")
+					for _, o := range fr.vc.errGlobals {
+						fr.vc.assume("(not (= " + name + " " + o + "))")
+					}
+					fr.vc.errGlobals = append(fr.vc.errGlobals, name)
+					fr.vc.note("error variables initialised with errors.New are distinct non-nil values")
+				}
+			}
 		}
 	}
 	return name, true
@@ -1413,8 +1429,31 @@ func addrEscapes(v ssa.Value, seen map[ssa.Value]bool, depth int) bool {
 
 // ---------------------------------------------------------------- local names (for loop invariants)
 
+type localRef struct {
+	v     ssa.Value
+	block *ssa.BasicBlock
+	ord   int
+}
+
 func (fr *frame) collectLocalNames() {
 	fr.localNames = map[string][]ssa.Value{}
+	fr.localRefs = map[string][]localRef{}
+	for _, b := range fr.fn.Blocks {
+		for i, in := range b.Instrs {
+			switch x := in.(type) {
+			case *ssa.DebugRef:
+				if obj := x.Object(); obj != nil && !x.IsAddr {
+					if _, isVar := obj.(*types.Var); isVar {
+						fr.localRefs[obj.Name()] = append(fr.localRefs[obj.Name()], localRef{x.X, b, i})
+					}
+				}
+			case *ssa.Phi:
+				if x.Comment != "" {
+					fr.localRefs[x.Comment] = append(fr.localRefs[x.Comment], localRef{x, b, i})
+				}
+			}
+		}
+	}
 	add := func(n string, v ssa.Value) {
 		for _, o := range fr.localNames[n] {
 			if o == v {
